@@ -39,14 +39,16 @@ pub struct Drv {
     pub yields: usize,
     /// the source stream answers Pending (waking itself) once before every item (seq_join only)
     pub src_pending: bool,
+    /// a second failing task (parallel join only); usize::MAX = none
+    pub err2: usize,
 }
 
 impl Drv {
     pub fn name(&self) -> String {
-        format!("n{}-w{}-dep{:?}-err{}-{}-y{}", self.n, self.w, self.dep, if self.err == usize::MAX { "none".to_string() } else { self.err.to_string() }, ["join", "try", "parallel"][self.mode as usize], self.yields).replace(' ', "") + if self.src_pending { "-srcpend" } else { "" }
+        format!("n{}-w{}-dep{:?}-err{}-{}-y{}", self.n, self.w, self.dep, if self.err == usize::MAX { "none".to_string() } else { self.err.to_string() }, ["join", "try", "parallel"][self.mode as usize], self.yields).replace(' ', "") + if self.src_pending { "-srcpend" } else { "" } + &if self.err2 == usize::MAX { String::new() } else { format!("-err2_{}", self.err2) }
     }
     pub fn to_json(&self) -> serde_json::Value {
-        json!({"n":self.n,"w":self.w,"dep":self.dep.map(|d| vec![d.0,d.1]),"err":if self.err==usize::MAX {-1i64} else {self.err as i64},"mode":self.mode,"yields":self.yields,"src_pending":self.src_pending})
+        json!({"n":self.n,"w":self.w,"dep":self.dep.map(|d| vec![d.0,d.1]),"err":if self.err==usize::MAX {-1i64} else {self.err as i64},"mode":self.mode,"yields":self.yields,"src_pending":self.src_pending,"err2":if self.err2==usize::MAX {-1i64} else {self.err2 as i64}})
     }
     pub fn from_json(v: &serde_json::Value) -> Self {
         let u = |k: &str| v[k].as_u64().unwrap() as usize;
@@ -58,6 +60,7 @@ impl Drv {
             mode: v["mode"].as_u64().unwrap() as u8,
             yields: u("yields"),
             src_pending: v["src_pending"].as_bool().unwrap_or(false),
+            err2: v["err2"].as_i64().filter(|x| *x >= 0).map_or(usize::MAX, |x| x as usize),
         }
     }
 }
@@ -109,7 +112,7 @@ fn tasks(d: Drv, log: StdArc<StdMutex<Vec<usize>>>) -> Vec<Task> {
                 if let Some(t) = my_tx {
                     let _ = t.send(());
                 }
-                if i == d.err { Err(format!("task {i} failed")) } else { Ok(i) }
+                if i == d.err || i == d.err2 { Err(format!("task {i} failed")) } else { Ok(i) }
             }) as Task
         })
         .collect()
@@ -125,7 +128,8 @@ fn body(d: Drv, outcomes: StdArc<StdMutex<BTreeSet<String>>>) {
             if d.err == usize::MAX {
                 assert!(r == Ok((0..d.n).collect::<Vec<_>>()), "C15-ORACLE order: fallible join (mode {}) returned {r:?}", d.mode);
             } else {
-                assert!(r == Err(format!("task {} failed", d.err)), "C15-ORACLE error: fallible join (mode {}) returned {r:?}, task {} failed", d.mode, d.err);
+                let first = d.err.min(d.err2);
+                assert!(r == Err(format!("task {first} failed")), "C15-ORACLE error: fallible join (mode {}) returned {r:?}, the first failing task in input order is {first}", d.mode);
             }
         } else {
             let r: Vec<Result<usize, String>> = if d.src_pending { seq_join(w, PendingSource { items: ts.into_iter(), pended: false }).collect().await } else { seq_join(w, stream::iter(ts)).collect().await };
@@ -175,16 +179,16 @@ fn run() {
                 _ => 1,
             };
             let bounds: Vec<u32> = (0..=kmax).collect();
-            drivers.push((Drv { n, w, dep: None, err: none, mode: 0, yields: 1, src_pending: false }, bounds.clone()));
-            drivers.push((Drv { n, w, dep: None, err: none, mode: 0, yields: 1, src_pending: true }, bounds.clone()));
+            drivers.push((Drv { n, w, dep: None, err: none, mode: 0, yields: 1, src_pending: false, err2: usize::MAX }, bounds.clone()));
+            drivers.push((Drv { n, w, dep: None, err: none, mode: 0, yields: 1, src_pending: true, err2: usize::MAX }, bounds.clone()));
             if n >= 2 {
-                drivers.push((Drv { n, w, dep: None, err: n - 1, mode: 0, yields: 0, src_pending: true }, bounds.clone()));
+                drivers.push((Drv { n, w, dep: None, err: n - 1, mode: 0, yields: 0, src_pending: true, err2: usize::MAX }, bounds.clone()));
             }
             // every single dependency inside a window, both directions
             for a in 0..n {
                 for b in 0..n {
                     if a != b && a.abs_diff(b) <= w - 1 {
-                        drivers.push((Drv { n, w, dep: Some((a, b)), err: none, mode: 0, yields: 0, src_pending: false }, bounds.clone()));
+                        drivers.push((Drv { n, w, dep: Some((a, b)), err: none, mode: 0, yields: 0, src_pending: false, err2: usize::MAX }, bounds.clone()));
                     }
                 }
             }
@@ -199,17 +203,25 @@ fn run() {
                 if w > 1 && e != n - 1 {
                     continue;
                 }
-                drivers.push((Drv { n, w, dep: None, err: e, mode: 1, yields: 1, src_pending: false }, bounds.clone()));
+                drivers.push((Drv { n, w, dep: None, err: e, mode: 1, yields: 1, src_pending: false, err2: usize::MAX }, bounds.clone()));
             }
-            drivers.push((Drv { n, w, dep: None, err: none, mode: 1, yields: 0, src_pending: false }, bounds.clone()));
+            drivers.push((Drv { n, w, dep: None, err: none, mode: 1, yields: 0, src_pending: false, err2: usize::MAX }, bounds.clone()));
             if w == n {
                 // parallel_join spawns everything at once: the window is the whole input
-                drivers.push((Drv { n, w, dep: None, err: none, mode: 2, yields: 1, src_pending: false }, bounds.clone()));
-                drivers.push((Drv { n, w, dep: None, err: n - 1, mode: 2, yields: 0, src_pending: false }, bounds.clone()));
+                drivers.push((Drv { n, w, dep: None, err: none, mode: 2, yields: 1, src_pending: false, err2: usize::MAX }, bounds.clone()));
+                drivers.push((Drv { n, w, dep: None, err: n - 1, mode: 2, yields: 0, src_pending: false, err2: usize::MAX }, bounds.clone()));
+                // two failing tasks: the error of the first one in input order is returned. Returning
+                // early abandons the tasks still in flight, whose cancellation handler panics (tokio
+                // contains that panic in the JoinHandle, shuttle reports it): such executions are counted
+                // as tolerated and the exploration goes on; the others reach the oracle
+                if n >= 2 {
+                    drivers.push((Drv { n, w, dep: None, err: 0, mode: 2, yields: 0, src_pending: false, err2: n - 1 }, bounds.clone()));
+                    drivers.push((Drv { n, w, dep: None, err: n - 2, mode: 2, yields: 1, src_pending: false, err2: n - 1 }, bounds.clone()));
+                }
                 for a in 0..n {
                     for b in 0..n {
                         if a != b {
-                            drivers.push((Drv { n, w, dep: Some((a, b)), err: none, mode: 2, yields: 0, src_pending: false }, bounds.clone()));
+                            drivers.push((Drv { n, w, dep: Some((a, b)), err: none, mode: 2, yields: 0, src_pending: false, err2: usize::MAX }, bounds.clone()));
                         }
                     }
                 }
@@ -247,7 +259,11 @@ fn explore_driver_with_worker(d: Drv, bounds: &[u32], cap_exec: u64, cap_wall_s:
         cfg.worker = (0, 1);
         cfg.max_exec = cap_exec;
         cfg.max_wall = std::time::Duration::from_secs(cap_wall_s);
+        if d.err2 != usize::MAX {
+            cfg.tolerate = Some("parallel_join: task cancelled");
+        }
         let out = sched::explore(cfg, move || body(d, StdArc::clone(&o2)));
+        r.add("tolerated_cancellation_panics", out.tolerated);
         r.add("states", out.counted);
         r.add("transitions", out.steps);
         r.add("evaluations", out.executions);
